@@ -5,3 +5,4 @@
 -/
 import VK.Props.C17
 import VK.Props.KernelsDictator
+import VK.Props.C17Tiebreak
